@@ -121,7 +121,9 @@ def tlc(wd, module, cfg=None, workers=None, args=(), timeout=1800, xss="256m", x
     """run TLC on module in scratch dir wd; returns TLCResult. Raises Inconclusive on crash/timeout."""
     cfg = cfg or module + ".cfg"
     meta = tempfile.mkdtemp(prefix="meta_", dir=wd)
-    cmd = ["java", "-XX:+UseParallelGC", "-Xss" + xss, "-Xmx" + xmx]
+    jtmp = os.path.join(wd, "jtmp")          # TLC leaves a tlc-* directory per run in java.io.tmpdir: keep it inside the scratch directory
+    os.makedirs(jtmp, exist_ok=True)
+    cmd = ["java", "-XX:+UseParallelGC", "-Xss" + xss, "-Xmx" + xmx, "-Djava.io.tmpdir=" + jtmp]
     if depth_first:
         cmd.append("-Dtlc2.tool.queue.IStateQueue=StateDeque")
     cmd += ["-cp", TLAJAR + ":" + CMJAR + ":" + wd, "tlc2.TLC", "-metadir", meta,
